@@ -508,6 +508,46 @@ def r_new_valid(rep, prog):
                           "final conjunct is not a negated overlap: " + T.show(t), v.span)
 
 
+def r_overlap_symmetric(rep, prog, rule="R-NEW-VALID"):
+    """The interval test behind every `overlap(x, y)` conjunct of valid(): two non-empty ranges intersect iff
+    a.start < b.end and b.start < a.end - both comparisons are needed (one alone misses one nesting direction)."""
+    b = prog.body("llfree::MetaData::valid::overlap")
+    if b is None:
+        rep.check(True, rule, "overlap|test", "undecided: no nested overlap helper (another implementation)")
+        return
+    rep.saw(b.name)
+    tm = T.Terms(b, prog)
+    cmps = []
+    for s_ in range(b.nblocks()):
+        t = b.term(s_)
+        if t["k"] == "switch":
+            cmps.append((T.canon(tm.operand(t["discr"])), s_))
+    rets = []
+    for bi, si, rv in lib.assignments_to_return(b):
+        rets.append(T.canon(tm.call_term(bi) if si == "term" else tm.rvalue(rv)))
+    terms = [c for c, _ in cmps] + rets
+
+    def is_lt(t, x, y):
+        # x < y (or y > x) between range bounds
+        if t[0] != "bin":
+            return False
+        a_, b_ = t[2], t[3]
+        if t[1] == "Lt":
+            return a_ == x and b_ == y
+        if t[1] == "Gt":
+            return a_ == y and b_ == x
+        return False
+    A, B = ("p", "a"), ("p", "b")
+    fwd = any(is_lt(t, ("f", A, "start"), ("f", B, "end")) for t in terms)
+    bwd = any(is_lt(t, ("f", B, "start"), ("f", A, "end")) for t in terms)
+    maxmin = any(t[0] == "bin" and t[1] == "Lt" and t[2][0] == "call" and t[2][1].endswith("::max") and t[3][0] == "call" and t[3][1].endswith("::min")
+                 for t in terms)
+    # every true result needs both comparisons: the single non-false return is the last conjunct, the others are switches on the way
+    rep.check((fwd and bwd) or maxmin, rule, "overlap|symmetric", "a.start < b.end && b.start < a.end",
+              "overlap(a, b) is not the symmetric interval test (found a.start<b.end: %s, b.start<a.end: %s): buffers that overlap in one "
+              "nesting direction are accepted" % (fwd, bwd), b.span)
+
+
 def r_ctor_guards(rep, prog):
     rule = "R-CTOR-GUARDS"
     rep.rule(rule, "Lower::new, Locals::new: Err(Error::Initialization) is returned before any view of the buffer is created "
@@ -601,5 +641,6 @@ def run(rep, programs):
     r_check_guards(rep, prog)
     r_zone_flow(rep, prog)
     r_new_valid(rep, prog)
+    r_overlap_symmetric(rep, prog)
     r_ctor_guards(rep, prog)
     r_err_kinds(rep, prog)
